@@ -24,6 +24,7 @@ type Sched struct {
 	Preempt  int      `json:"preempt"`             // percent chance to switch goroutine per step in the tail
 	ClockPct int      `json:"clock_pct,omitempty"` // percent chance per step to advance the simulated clock
 	ClockMs  []int    `json:"clock_ms,omitempty"`  // candidate advances in milliseconds
+	WmLeash  int      `json:"wm_leash,omitempty"`  // fairness leash of watermark goroutines (0 = 5 steps)
 }
 
 type parkedG struct {
@@ -496,7 +497,11 @@ func (e *Engine) decideLocked(elig []*parkedG) *parkedG {
 			// oracle lock: a starved watermark goroutine would wedge the bubble
 			// (mutex waiters are not "durably blocked"). Several marks can be
 			// produced per step, so these goroutines get a much shorter leash.
+			// (at most ~2 marks per step: a leash of 30 stays below the capacity)
 			k = 5
+			if e.sched.WmLeash > 0 {
+				k = e.sched.WmLeash
+			}
 		}
 		if p.passed >= k && (starving == nil || p.passed-k > starving.passed-e.fairnessK) {
 			starving = p
